@@ -23,8 +23,9 @@ TARGETS = ['PyTough.Props.C07', 'drv_c05']
 THEOREMS = ['Props.C07.' + t for t in ['nav_view_eq_fresh', 'index_in_range', 'stale_cells_witness', 'next_bounds', 'prev_bounds',
                                     'negative_index_normalised', 'index_out_of_range', 'set_time_nearest', 'set_step_nearest',
                                     'history_preserves_view', 'file_load_sets_index', 'file_load_ignores_cursor_time_step',
-                                    'file_index_in_range', 'nav_view_eq_fresh_on', 'file_nav_view_eq_fresh_on', 'file_nav_view_eq_fresh_orbit']]
-LEVEL_TEXT = ('Proof: 16 Lean theorems about the navigation machine of the reader (first/last/next/prev, index/time/step setters, history), '
+                                    'file_index_in_range', 'nav_view_eq_fresh_on', 'file_nav_view_eq_fresh_on', 'file_nav_view_eq_fresh_orbit',
+                                    'file_action_is_set_index', 'file_next_prev_at_ends']]
+LEVEL_TEXT = ('Proof: 18 Lean theorems about the navigation machine of the reader (first/last/next/prev, index/time/step setters, history), '
               'for every reader satisfying two stated hypotheses: after any sequence of successful actions the view equals that of a reader '
               'positioned directly at that index (nav_view_eq_fresh, with a counterexample showing the Covers hypothesis is needed); the index '
               'stays in range; next/prev report whether they moved and stop at the ends; negative indices count from the end, out-of-range ones '
@@ -40,6 +41,11 @@ LEVEL_TEXT = ('Proof: 16 Lean theorems about the navigation machine of the reade
               'nav_view_eq_fresh_on / file_nav_view_eq_fresh_on restate it with the hypothesis asked only of states satisfying an invariant P preserved by re-reading (CoversOn, PreservedBy), '
               'for the whole-file model with LoadSetsIndex proved and view = index, time, step and every table cell; '
               'file_nav_view_eq_fresh_orbit: with P = membership in a finite set of reader states both hypotheses are one decidable per-file check (orbitOk), discharged by kernel evaluation on a concrete two-result file in Props/C07.lean. '
+              'file_action_is_set_index: for the whole-file model (every simulator, exact times and steps), from any state with an index in range, a successful first/last/next/prev/index=j/time=t/step=x '
+              'either is next at the last or prev at the first index (reports False, reader unchanged), or a returning history (reader unchanged), or leaves exactly the reader state - hence the view - that index = k leaves, '
+              'with the reported index k, for the k the action computes: 0, n-1, i+1, i-1, j (j+n when negative), and for time/step the nearest-selection index spelled out (0 below the first value, n-1 above the last, '
+              'otherwise the first index at minimal distance: none strictly nearer, every earlier one strictly farther). '
+              'file_next_prev_at_ends: next at the last and prev at the first index return False and change nothing, for every file and state. '
               'Still not proved: that orbitOk / CoversOn holds for a given shipped file (re-reading overwrites every cell of every table) - it depends on the rows printed at each result time of the file and is evaluated per file by the sentinel test of the harness.')
 LEVEL_NOTE = ('Trusted: Lean kernel (+propext, Classical.choice, Quot.sound); the hand-written whole-file model of t2listing (compared with the real reader '
               'cell for cell on every run, C05); Covers is a hypothesis of nav_view_eq_fresh (LoadSetsIndex is proved for the whole-file model): Covers is evaluated on the model of every '
